@@ -27,6 +27,9 @@ GaussCases == {[fam |-> "quad5", p |-> Mono(d), a |-> R(e[1]), b |-> R(e[2])] : 
         \cup {[fam |-> "quad5", p |-> p, a |-> R(e[1]), b |-> R(e[2])] : p \in {<<1>>, <<3, 0 - 2>>, <<0, 0, 1>>}, e \in {<<0 - 500, 500>>, <<250, 0 - 500>>, <<1000, 1000>>}}
 SampCases == {[fam |-> "samples", y |-> [i \in 1..n |-> ((i * i + 3 * i) % 7) - 3], x |-> [i \in 1..n |-> (i * (i + g)) \div 2], dx |-> 0] : n \in {2, 3, 5, 9, 17, 64}, g \in {0, 1, 3}}
         \cup {[fam |-> "samples", y |-> [i \in 1..n |-> ((i * i + 3 * i) % 7) - 3], x |-> <<>>, dx |-> d] : n \in {2, 3, 8, 64}, d \in {0, 1, 3}}
+        \* long tables (the quantifier goes to 1e4 samples): around and beyond 1024, with unit spacing, a step and abscissae
+        \cup {[fam |-> "samples", y |-> [i \in 1..n |-> ((i * i + 3 * i) % 7) - 3], x |-> <<>>, dx |-> d] : n \in {1024, 1025, 2049, 3000}, d \in {0, 3}}
+        \cup {[fam |-> "samples", y |-> [i \in 1..n |-> ((i * i + 3 * i) % 7) - 3], x |-> [i \in 1..n |-> 2 * i + (i % 3)], dx |-> 0] : n \in {1025, 2500}}
         \* non-uniform grids whose first spacing equals the mean spacing, and grids that are uniform except for one interval
         \cup {[fam |-> "samples", y |-> [i \in 1..Len(x) |-> ((i * i + 3 * i) % 7) - 3], x |-> x, dx |-> 0] :
                  x \in {<<0, 4, 6, 12>>, <<0, 8, 9, 10, 32>>, <<0 - 8, 0, 4, 20, 24>>, <<0, 4, 8, 12, 14>>, <<0, 2, 6, 10, 14>>, <<3, 7, 11, 19, 19 + 4>>,
